@@ -305,6 +305,9 @@ def run_case(c: Dict[str, Any]) -> Dict[str, Any]:
         # whatever happened before: the connection is over once the client has gone
         if client.sock is not None and not client.closed:
             client.do_close()
+    if c.get('shutdown_raises'):
+        # the peer has reset the connection: the proxy's own shutdown(SHUT_WR) fails with ENOTCONN, as on a real TCP stack
+        w.global_fault_fn = lambda ks, op: 'ENOTCONN' if op == 'shutdown' else None
     if c.get('abort_at') is not None:
         def tick(world: K.World) -> None:
             if world.iter >= c['abort_at'] and not state.get('ended'):
@@ -325,7 +328,8 @@ def evaluate(c: Dict[str, Any]) -> Tuple[List[Any], Dict[str, Any]]:
     beh = {int(k_): v for k_, v in c['behaviour'].items()}
     nonpass = sum(1 for i in c['order'] for h, b in beh[i].items() if b not in ('pass', None))
     abort = c.get('abort_at') is not None
-    feat = {'outcome': exp['outcome'], 'abort': abort, 'auth': c['auth'], 'ending': c['ending'] if not abort else 'abort'}
+    feat = {'outcome': exp['outcome'], 'abort': abort, 'auth': c['auth'], 'ending': c['ending'] if not abort else 'abort',
+            'shutdown_raises': bool(c.get('shutdown_raises'))}
     info = {'nonpass': nonpass, 'plugins': len(c['order']), 'abort': abort, 'outcome': exp['outcome']}
     out: List[Any] = []
 
@@ -446,6 +450,7 @@ def cases(draw: Any) -> Dict[str, Any]:
          'cuts': draw(st.one_of(st.just([]), st.lists(st.integers(1, 80), max_size=3))),
          'ending': draw(st.sampled_from(['client_close', 'client_reset', 'origin_close', 'origin_reset'])),
          'abort_at': draw(st.integers(1, 25)) if abort else None,
+         'shutdown_raises': draw(st.integers(0, 3)) == 0,
          'second': True if followup_focus else draw(st.booleans()),
          'schedule': draw(st.lists(st.integers(0, 2), max_size=25))}
     return c
@@ -460,7 +465,7 @@ def run_shard(spec: Dict[str, Any], seed: int, acc: Any) -> None:
     def chk(c: Dict[str, Any]) -> List[Any]:
         vs, info = evaluate(c)
         labs = ['outcome:' + info['outcome'], 'plugins:%d' % info['plugins'], 'ending:' + ('abort' if info['abort'] else c['ending']),
-                'requests:%d' % (2 if second_effective(c) else 1)]
+                'requests:%d' % (2 if second_effective(c) else 1)] + (['own-shutdown-raises'] if c.get('shutdown_raises') else [])
         if info.get('inconclusive'):
             acc.dontcare += 1
         acc.case(c, (info['plugins'] >= 2 and info['nonpass'] >= 1) or info['abort'], labels=labs)
